@@ -1,20 +1,20 @@
 #!/bin/sh
-# usage: seed_verify.sh <PID> <X>      e.g. C03 A
-# Confirms an agent-made mutation in its scratch worktree /tmp/seed/<PID>: demo passes clean,
-# fails patched; full baseline suite still passes patched. Then files it under /verif/seeded/<PID>-<X>/.
-PID=$1; X=$2; WT=/tmp/seed/$PID; OUT=$WT/out
-LOG=/tmp/seed/verify_${PID}_${X}.log
+# usage: [SEEDROOT=/tmp/seed2 LABEL=C] seed_verify.sh <PID> <X>      e.g. C03 A
+# Confirms an agent-made mutation in its scratch worktree $SEEDROOT/<PID>: demo passes clean,
+# fails patched; full baseline suite still passes patched. Then files it under /verif/seeded/<PID>-<LABEL or X>/.
+PID=$1; X=$2; ROOT=${SEEDROOT:-/tmp/seed}; L=${LABEL:-$X}; WT=$ROOT/$PID; OUT=$WT/out
+LOG=/tmp/seed/verify_${PID}_${L}.log
 exec > $LOG 2>&1
 cd $WT || exit 2
-git checkout -q -- . ; git status --short | grep -v '^??' 
-echo "== demo on clean tree"; PYTHONPATH=$WT timeout 600 /venv/bin/python out/demo_$X.py > /tmp/seed/${PID}_${X}_clean.out 2>&1; RC_CLEAN=$?; tail -3 /tmp/seed/${PID}_${X}_clean.out; echo rc=$RC_CLEAN
+git checkout -q -- . ; git status --short | grep -v '^??'
+echo "== demo on clean tree"; PYTHONPATH=$WT timeout 600 /venv/bin/python out/demo_$X.py > /tmp/seed/${PID}_${L}_clean.out 2>&1; RC_CLEAN=$?; tail -3 /tmp/seed/${PID}_${L}_clean.out; echo rc=$RC_CLEAN
 git apply out/patch_$X.diff || { echo "PATCH DOES NOT APPLY"; exit 2; }
-echo "== demo on patched tree"; PYTHONPATH=$WT timeout 600 /venv/bin/python out/demo_$X.py > /tmp/seed/${PID}_${X}_patched.out 2>&1; RC_PATCHED=$?; tail -5 /tmp/seed/${PID}_${X}_patched.out; echo rc=$RC_PATCHED
+echo "== demo on patched tree"; PYTHONPATH=$WT timeout 600 /venv/bin/python out/demo_$X.py > /tmp/seed/${PID}_${L}_patched.out 2>&1; RC_PATCHED=$?; tail -5 /tmp/seed/${PID}_${L}_patched.out; echo rc=$RC_PATCHED
 echo "== full suite on patched tree"
-PYTHONPATH=$WT timeout 3000 /venv/bin/python -m pytest -q -p no:cacheprovider --timeout=900 --continue-on-collection-errors --junitxml=/tmp/seed/${PID}_${X}_junit.xml > /tmp/seed/${PID}_${X}_pytest.log 2>&1
-tail -1 /tmp/seed/${PID}_${X}_pytest.log
-python3 /tmp/seed/baseline_compare.py /tmp/seed/${PID}_${X}_junit.xml; RC_TESTS=$?
+PYTHONPATH=$WT timeout 3000 /venv/bin/python -m pytest -q -p no:cacheprovider --timeout=900 --continue-on-collection-errors --junitxml=/tmp/seed/${PID}_${L}_junit.xml > /tmp/seed/${PID}_${L}_pytest.log 2>&1
+tail -1 /tmp/seed/${PID}_${L}_pytest.log
+python3 /tmp/seed/baseline_compare.py /tmp/seed/${PID}_${L}_junit.xml; RC_TESTS=$?
 git checkout -q -- . ; git clean -fdq -e out
-D=/verif/seeded/${PID}-${X}; mkdir -p $D
+D=/verif/seeded/${PID}-${L}; mkdir -p $D
 cp out/patch_$X.diff $D/patch.diff; cp out/demo_$X.py $D/demo.py; cp out/notes_$X.md $D/notes.md 2>/dev/null
-echo "RESULT $PID $X demo_clean_rc=$RC_CLEAN demo_patched_rc=$RC_PATCHED tests_rc=$RC_TESTS"
+echo "RESULT $PID $L demo_clean_rc=$RC_CLEAN demo_patched_rc=$RC_PATCHED tests_rc=$RC_TESTS"
